@@ -177,3 +177,142 @@ package twcc
 //@   ensures read_error_returned: callres("reader.Read", 2) != nil ==> result0 == 0 && result2 == callres("reader.Read", 2) && calls("send") == 0
 //@   ensures same_length: result2 == nil ==> result0 == callres("reader.Read", 0)
 //@   ensures recorded_at_most_once: calls("send") <= 1
+//@
+//@ # ---- the packet arrival-time map (property C05): a power-of-two ring holding the arrival time of every sequence
+//@ # number in [begin, end); -1 means "not received"
+//@ pred atmInv(m *packetArrivalTimeMap) := (m.arrivalTimes == nil ==> m.beginSequenceNumber == m.endSequenceNumber)
+//@     && (m.arrivalTimes != nil ==> pow2(uint64(len(m.arrivalTimes))) && len(m.arrivalTimes) >= 128 && len(m.arrivalTimes) <= 65536)
+//@     && m.beginSequenceNumber <= m.endSequenceNumber && m.endSequenceNumber - m.beginSequenceNumber <= int64(len(m.arrivalTimes))
+//@     && m.endSequenceNumber - m.beginSequenceNumber <= 32768
+//@     && -(1 << 61) < m.beginSequenceNumber && m.endSequenceNumber < (1 << 61)
+//@ # the abstract view: arrival time recorded for x, -1 outside the window
+//@ def arrAt(m *packetArrivalTimeMap, x int64) int64 := ite(m.beginSequenceNumber <= x && x < m.endSequenceNumber,
+//@      m.arrivalTimes[int(x & int64(len(m.arrivalTimes) - 1))], int64(-1))
+//@
+//@ func (*packetArrivalTimeMap).capacity
+//@   modifies nothing
+//@   ensures cap: result == len(m.arrivalTimes)
+//@
+//@ func (*packetArrivalTimeMap).index
+//@   requires ring: m.arrivalTimes != nil && pow2(uint64(len(m.arrivalTimes))) && len(m.arrivalTimes) <= 65536
+//@   modifies nothing
+//@   ensures slot: result == int(sequenceNumber & int64(len(m.arrivalTimes) - 1)) && 0 <= result && result < len(m.arrivalTimes)
+//@
+//@ func (*packetArrivalTimeMap).get
+//@   requires inv: atmInv(m)
+//@   modifies nothing
+//@   ensures view: result == arrAt(m, sequenceNumber)
+//@
+//@ func (*packetArrivalTimeMap).HasReceived
+//@   requires inv: atmInv(m)
+//@   modifies nothing
+//@   ensures received: result == (arrAt(m, sequenceNumber) >= 0)
+//@
+//@ func (*packetArrivalTimeMap).Clamp
+//@   modifies nothing
+//@   ensures clamped: result == ite(sequenceNumber < m.beginSequenceNumber, m.beginSequenceNumber, ite(m.endSequenceNumber < sequenceNumber, m.endSequenceNumber, sequenceNumber))
+//@
+//@ func (*packetArrivalTimeMap).setNotReceived
+//@   requires ring: m.arrivalTimes != nil && pow2(uint64(len(m.arrivalTimes))) && len(m.arrivalTimes) <= 65536
+//@        && endExclusive - startInclusive <= int64(len(m.arrivalTimes)) && -(1 << 61) < startInclusive && endExclusive < (1 << 61)
+//@   modifies m.arrivalTimes[*]
+//@   ensures cleared: forall x int64 :: startInclusive <= x && x < endExclusive ==> m.arrivalTimes[int(x & int64(len(m.arrivalTimes) - 1))] == -1
+//@   ensures others_kept: forall i int :: 0 <= i && i < len(m.arrivalTimes) && !(((int64(i) - startInclusive) & int64(len(m.arrivalTimes) - 1)) < endExclusive - startInclusive)
+//@        ==> m.arrivalTimes[i] == old(m.arrivalTimes[i])
+//@   loop 1 invariant range: startInclusive <= sn && (startInclusive >= endExclusive ==> sn == startInclusive) && (startInclusive < endExclusive ==> sn <= endExclusive)
+//@   loop 1 invariant cleared: forall x int64 :: startInclusive <= x && x < sn ==> m.arrivalTimes[int(x & int64(len(m.arrivalTimes) - 1))] == -1
+//@   loop 1 invariant others_kept: forall i int :: 0 <= i && i < len(m.arrivalTimes) && !(((int64(i) - startInclusive) & int64(len(m.arrivalTimes) - 1)) < sn - startInclusive)
+//@        ==> m.arrivalTimes[i] == old(m.arrivalTimes[i])
+//@   loop 1 decreases endExclusive - sn
+//@
+//@ # a new ring of the given power-of-two capacity holding the same view
+//@ func (*packetArrivalTimeMap).reallocate
+//@   requires inv: atmInv(m)
+//@   requires cap: pow2(uint64(newCapacity)) && 128 <= newCapacity && newCapacity <= 65536 && m.endSequenceNumber - m.beginSequenceNumber <= int64(newCapacity)
+//@   modifies m.arrivalTimes
+//@   ensures ring: fresh(m.arrivalTimes) && len(m.arrivalTimes) == newCapacity && atmInv(m)
+//@   ensures view_kept: forall x int64 :: arrAt(m, x) == old(arrAt(m, x))
+//@   loop 1 invariant range: m.beginSequenceNumber <= sn && sn <= m.endSequenceNumber && len(newBuffer) == newCapacity && fresh(newBuffer)
+//@        && m.arrivalTimes == old(m.arrivalTimes)
+//@   loop 1 invariant copied: forall x int64 :: m.beginSequenceNumber <= x && x < sn ==> newBuffer[int(x & int64(newCapacity - 1))] == arrAt(m, x)
+//@   loop 1 decreases m.endSequenceNumber - sn
+//@
+//@ # grow or shrink the ring so that newSize entries fit; the view is unchanged
+//@ func (*packetArrivalTimeMap).adjustToSize
+//@   requires inv: atmInv(m) && (m.arrivalTimes != nil || newSize == 0)
+//@   requires size: m.endSequenceNumber - m.beginSequenceNumber <= int64(newSize) && 0 <= newSize && newSize <= 32768
+//@   modifies m.arrivalTimes
+//@   ensures inv: atmInv(m) && (old(m.arrivalTimes != nil) ==> m.arrivalTimes != nil) && newSize <= len(m.arrivalTimes)
+//@   ensures same_or_fresh: m.arrivalTimes == old(m.arrivalTimes) || fresh(m.arrivalTimes)
+//@   ensures view_kept: forall x int64 :: arrAt(m, x) == old(arrAt(m, x))
+//@   loop 1 invariant growing: pow2(uint64(newCapacity)) && 128 <= newCapacity && newCapacity <= 32768 && len(m.arrivalTimes) <= newCapacity
+//@   loop 1 decreases 65536 - newCapacity
+//@   loop 2 invariant shrinking: pow2(uint64(newCapacity)) && 128 <= newCapacity && newCapacity <= 65536 && newSize <= newCapacity
+//@   loop 2 decreases newCapacity
+//@
+//@ # recording an arrival: the window moves to contain the packet (at most 32768 numbers wide, never further back than
+//@ # 32768 behind its end); every other number keeps its time if it stays in the window, numbers newly covered read
+//@ # "not received"
+//@ func (*packetArrivalTimeMap).AddPacket
+//@   requires inv: atmInv(m) && -(1 << 60) < sequenceNumber && sequenceNumber < (1 << 60)
+//@   modifies m.arrivalTimes, m.arrivalTimes[*], m.beginSequenceNumber, m.endSequenceNumber
+//@   ensures inv: atmInv(m)
+//@   ensures too_old_ignored: old(m.arrivalTimes != nil) && sequenceNumber < old(m.beginSequenceNumber) && old(m.endSequenceNumber) - sequenceNumber > 32768 ==>
+//@        m.beginSequenceNumber == old(m.beginSequenceNumber) && m.endSequenceNumber == old(m.endSequenceNumber) && (forall x int64 :: arrAt(m, x) == old(arrAt(m, x)))
+//@   ensures recorded: !(old(m.arrivalTimes != nil) && sequenceNumber < old(m.beginSequenceNumber) && old(m.endSequenceNumber) - sequenceNumber > 32768) ==>
+//@        arrAt(m, sequenceNumber) == arrivalTime && m.beginSequenceNumber <= sequenceNumber && sequenceNumber < m.endSequenceNumber
+//@   ensures window_first: old(m.arrivalTimes == nil) ==> m.beginSequenceNumber == sequenceNumber && m.endSequenceNumber == sequenceNumber + 1
+//@   ensures window_inside: old(m.arrivalTimes != nil) && old(m.beginSequenceNumber) <= sequenceNumber && sequenceNumber < old(m.endSequenceNumber) ==>
+//@        m.beginSequenceNumber == old(m.beginSequenceNumber) && m.endSequenceNumber == old(m.endSequenceNumber)
+//@   ensures window_back: old(m.arrivalTimes != nil) && sequenceNumber < old(m.beginSequenceNumber) && old(m.endSequenceNumber) - sequenceNumber <= 32768 ==>
+//@        m.beginSequenceNumber == sequenceNumber && m.endSequenceNumber == old(m.endSequenceNumber)
+//@   ensures window_far_ahead: old(m.arrivalTimes != nil) && sequenceNumber + 1 >= old(m.endSequenceNumber) + 32768 ==>
+//@        m.beginSequenceNumber == sequenceNumber && m.endSequenceNumber == sequenceNumber + 1
+//@   ensures window_ahead: old(m.arrivalTimes != nil) && sequenceNumber >= old(m.endSequenceNumber) && sequenceNumber + 1 < old(m.endSequenceNumber) + 32768 ==>
+//@        m.endSequenceNumber == sequenceNumber + 1 && m.beginSequenceNumber == ite(old(m.beginSequenceNumber) < sequenceNumber + 1 - 32768, sequenceNumber + 1 - 32768, old(m.beginSequenceNumber))
+//@   ensures others: !(old(m.arrivalTimes != nil) && sequenceNumber + 1 >= old(m.endSequenceNumber) + 32768) ==>
+//@        forall x int64 :: x != sequenceNumber && m.beginSequenceNumber <= x && x < m.endSequenceNumber ==> arrAt(m, x) == old(arrAt(m, x))
+//@
+//@ func (*packetArrivalTimeMap).BeginSequenceNumber
+//@   modifies nothing
+//@   ensures begin: result == m.beginSequenceNumber
+//@
+//@ func (*packetArrivalTimeMap).EndSequenceNumber
+//@   modifies nothing
+//@   ensures end: result == m.endSequenceNumber
+//@
+//@ # the first received number at or after sequenceNumber (clamped into the window), with its arrival time
+//@ func (*packetArrivalTimeMap).FindNextAtOrAfter
+//@   requires inv: atmInv(m)
+//@   modifies nothing
+//@   ensures found: result2 ==> m.beginSequenceNumber <= result0 && result0 < m.endSequenceNumber && sequenceNumber <= result0
+//@        && result1 == arrAt(m, result0) && result1 >= 0
+//@   ensures first: result2 ==> forall x int64 :: m.beginSequenceNumber <= x && sequenceNumber <= x && x < result0 ==> arrAt(m, x) < 0
+//@   ensures none: !result2 ==> result0 == -1 && result1 == -1 && (forall x int64 :: m.beginSequenceNumber <= x && sequenceNumber <= x && x < m.endSequenceNumber ==> arrAt(m, x) < 0)
+//@   loop 1 invariant scanned: m.beginSequenceNumber <= seq && seq <= m.endSequenceNumber && (sequenceNumber <= seq || sequenceNumber > m.endSequenceNumber) && (sequenceNumber > m.endSequenceNumber ==> seq == m.endSequenceNumber)
+//@        && (forall x int64 :: m.beginSequenceNumber <= x && sequenceNumber <= x && x < seq ==> arrAt(m, x) < 0)
+//@   loop 1 decreases m.endSequenceNumber - seq
+//@
+//@ # forget everything before sequenceNumber; what stays in the window keeps its time
+//@ func (*packetArrivalTimeMap).EraseTo
+//@   requires inv: atmInv(m)
+//@   modifies m.arrivalTimes, m.beginSequenceNumber
+//@   ensures inv: atmInv(m)
+//@   ensures window: m.endSequenceNumber == old(m.endSequenceNumber) && m.beginSequenceNumber == ite(sequenceNumber < old(m.beginSequenceNumber), old(m.beginSequenceNumber),
+//@        ite(sequenceNumber >= old(m.endSequenceNumber), old(m.endSequenceNumber), sequenceNumber))
+//@   ensures kept: forall x int64 :: m.beginSequenceNumber <= x ==> arrAt(m, x) == old(arrAt(m, x))
+//@
+//@ # drop the leading packets (before sequenceNumber) that arrived at or before the limit
+//@ func (*packetArrivalTimeMap).RemoveOldPackets
+//@   requires inv: atmInv(m)
+//@   modifies m.arrivalTimes, m.beginSequenceNumber
+//@   ensures inv: atmInv(m)
+//@   ensures window: m.endSequenceNumber == old(m.endSequenceNumber) && old(m.beginSequenceNumber) <= m.beginSequenceNumber
+//@        && (m.beginSequenceNumber > old(m.beginSequenceNumber) ==> m.beginSequenceNumber <= sequenceNumber)
+//@   ensures only_old_dropped: forall x int64 :: old(m.beginSequenceNumber) <= x && x < m.beginSequenceNumber ==> old(arrAt(m, x)) <= arrivalTimeLimit
+//@   ensures stops_at_newer: m.beginSequenceNumber < sequenceNumber && m.beginSequenceNumber < m.endSequenceNumber ==> arrAt(m, m.beginSequenceNumber) > arrivalTimeLimit
+//@   ensures kept: forall x int64 :: m.beginSequenceNumber <= x ==> arrAt(m, x) == old(arrAt(m, x))
+//@   loop 1 invariant advancing: atmInv(m) && old(m.beginSequenceNumber) <= m.beginSequenceNumber && (m.beginSequenceNumber <= checkTo || m.beginSequenceNumber == old(m.beginSequenceNumber)) && m.endSequenceNumber == old(m.endSequenceNumber)
+//@        && m.arrivalTimes == old(m.arrivalTimes)
+//@        && (forall x int64 :: old(m.beginSequenceNumber) <= x && x < m.beginSequenceNumber ==> old(arrAt(m, x)) <= arrivalTimeLimit)
+//@   loop 1 decreases checkTo - m.beginSequenceNumber
